@@ -121,6 +121,10 @@ func Run(t *testing.T, prop string, seed uint64, tier string, replay *hcommon.Re
 	stallsLeft := p.Sched.StallBudget
 	slowP := uint64(p.Sched.SlowProb * (1 << 32))
 	slowPrefix := "rpc:" + p.Sched.SlowMethod + "@"
+	if p.Sched.SlowMethod == "@periodic" {
+		// the periodic stabilize / fix-finger / predecessor-check tasks are named after the go statements that start them
+		slowPrefix = "chord/local_tasks.go:"
+	}
 	stallFn := func(site string, draw func() uint64) time.Duration {
 		if strings.HasPrefix(site, "h:") || strings.HasPrefix(site, "chord/local.go:") || strings.HasPrefix(site, "simnet:") {
 			return 0
